@@ -408,7 +408,11 @@ func (e *bigEnv) plain(v ssa.Value, at ssa.Instruction) *X {
 			}
 			xs := []*X{e.valueAt(recv, where)}
 			for _, a := range args {
-				xs = append(xs, e.plain(a, where))
+				if isBigIntPtr(a.Type()) {
+					xs = append(xs, e.valueAt(a, where)) // the argument's value at the call, after its in-place updates
+				} else {
+					xs = append(xs, e.plain(a, where))
+				}
 			}
 			return Op(strings.ToLower(name), xs...)
 		}
